@@ -28,5 +28,10 @@ for c in "$@"; do
   ./check $c --tier $tier > $S/logs/$c.log 2>&1; rc=$?
   e=$(date +%s)
   echo "slot$k $(basename $(dirname $p))/$(basename $p) $c rc=$rc t=$((e-s))s :: $(grep VIOLATION $S/logs/$c.log | head -3 | tr '\n' ';')"
+  # harvest: the first replay with a concrete failing input, for the regression corpus (HARVEST=<dir>)
+  if [ -n "$HARVEST" ] && [ "$p" != "-" ]; then
+    r=$(grep VIOLATION $S/logs/$c.log | grep -v no-failing-input-found | head -1 | sed 's/.*replay=\([^ ;]*\).*/\1/')
+    [ -n "$r" ] && [ -f "$r" ] && mkdir -p $HARVEST && cp "$r" "$HARVEST/$(basename $(dirname $p))__$c.trace"
+  fi
 done
 git -C $S/repo checkout -q -- . ; git -C $S/repo clean -fdq
